@@ -138,6 +138,10 @@ def sweep(u, unit_dir, scratch):
     return found
 
 
+def built(u, unit_dir, scratch):
+    return _build(u.name, unit_dir, scratch, getattr(u, 'auto_map', None)) is not None
+
+
 def bounded(u, unit_dir, scratch, labels):
     """Run the unit's enumerator for clauses registered as bounded stand-ins (label = fn-prefix.clause)."""
     exe = _build(u.name, unit_dir, scratch, getattr(u, 'auto_map', None))
